@@ -27,6 +27,26 @@ var hShapes07 = [][]int{
 	{-1, 0, 0, 0, 2},
 }
 
+// hAllShapes07 enumerates every ordered rooted tree with up to maxN nodes as parent
+// arrays in preorder numbering (the parent of node i is node i-1 or one of its
+// ancestors): 1, 1, 2, 5, 14, 42, 132 trees with 1..7 nodes.
+func hAllShapes07(maxN int) [][]int {
+	var out [][]int
+	var rec func(cur []int)
+	rec = func(cur []int) {
+		out = append(out, append([]int(nil), cur...))
+		if len(cur) == maxN {
+			return
+		}
+		// candidates: the last node and its ancestors
+		for p := len(cur) - 1; p >= 0; p = cur[p] {
+			rec(append(cur, p))
+		}
+	}
+	rec([]int{-1})
+	return out
+}
+
 type hNode07 struct {
 	id       int
 	cont     bool
@@ -52,20 +72,21 @@ func hRef07(n *hNode07, m []bool) []int {
 	return all
 }
 
-// VerifC07_Match: for every tree shape up to 5 nodes / depth 4, every assignment of
+// VerifC07_Match: for 9 tree shapes up to 5 nodes (quick) / all 197 ordered trees with
+// up to 7 nodes (thorough), every assignment of
 // "this node's matchers hold" and every assignment of continue flags, Route.Match on
 // the tree built by NewRoute returns exactly the reference list, in depth-first
 // order, and never an empty list.
 //
 //vf:quick unwind=12 decisions=200
-//vf:thorough unwind=12 decisions=200
+//vf:thorough unwind=16 decisions=300 paths=2000000
 //vf:expect reach=root-only reach=several reach=leaf
 func VerifC07_Match() {
-	nShapes := 9
+	shapes := hShapes07[:9]
 	if vfTier() > 0 {
-		nShapes = len(hShapes07)
+		shapes = hAllShapes07(7) // all 197 ordered trees with up to 7 nodes
 	}
-	shape := hShapes07[vfChoice("shape", nShapes)]
+	shape := shapes[vfChoice("shape", len(shapes))]
 	n := len(shape)
 	crs := make([]*config.Route, n)
 	nodes := make([]*hNode07, n)
